@@ -155,6 +155,8 @@ def v_usage_app(o, opts):
 
 def v_subs(o, opts):
     drop = set(opts.get("drop", ()))
+    if o["subs"] and o["subs"][0] and o["subs"][0][0] == "unreadable":
+        return "unreadable"
     return sorted(json.dumps(s) for s in o["subs"] if s[2] not in drop)
 
 
@@ -442,15 +444,17 @@ def explicit_form(x, row=None):
     if x.mtype == "open":
         m = msg.get("mailbox")
         return {"type": "open", "mailbox": m} if isinstance(m, str) else None
+    # (what the connection had claimed / opened comes from the commands it sent -- monitors.walk -- not from the
+    # server's private per-connection attributes)
     if x.mtype == "release":
         n = msg.get("nameplate")
-        if n is None and row is not None and isinstance(row[6], str):
-            n = unhex(row[6])
+        if n is None:
+            n = getattr(x, "named_np_pre", {}).get(x.c)
         return {"type": "release", "nameplate": n} if isinstance(n, str) else None
     if x.mtype == "close":
         m = msg.get("mailbox")
-        if m is None and row is not None and isinstance(row[9], str):
-            m = unhex(row[9])
+        if m is None:
+            m = getattr(x, "named_mb_pre", {}).get(x.c)
         if not isinstance(m, str):
             return None
         d = {"type": "close", "mailbox": m}
